@@ -285,7 +285,7 @@ ALL_MC_INV = MC_INVARIANTS + ["MProbSum"]
 ALL_MC_PROPS = MC_PROPS + ["MRandomOnlyWithTiebreak"]
 
 
-def standard_run(pid, tier, seed, replay, mc_runs, corpus_fn, nontrivial, rule_text, extra=None, monitors=etrace.ALL_MONITORS):
+def standard_run(pid, tier, seed, replay, mc_runs, corpus_fn, nontrivial, rule_text, extra=None, monitors=etrace.ALL_MONITORS, role3=None):
     """mc_runs: list of dicts(family, cands, max_ballots, max_w, with_half) per tier key"""
     res = Result(pid, tier, seed)
     scratch(pid)
@@ -297,6 +297,9 @@ def standard_run(pid, tier, seed, replay, mc_runs, corpus_fn, nontrivial, rule_t
             model_check(res, pid, mc["family"], mc.get("cands", ["A", "B", "C"]), mc["max_ballots"], mc["max_w"],
                         with_half=mc.get("with_half", False), invariants=mc.get("invariants", ALL_MC_INV),
                         props=mc.get("props", ALL_MC_PROPS), name="mc%d_%s" % (i, mc["family"]))
+        for i, r3 in enumerate((role3 or {}).get(tier, [])):
+            behaviour_set_equality(res, pid, r3["family"], r3.get("cands", ["A", "B", "C"]), r3["max_ballots"], r3["max_w"],
+                                   with_half=r3.get("with_half", False), name="role3_%d_%s" % (i, r3["family"]))
         inputs = corpus_fn(tier, seed)
     res.evaluations = len(inputs)
     res.notes["inputs"] = len(inputs)
@@ -306,3 +309,80 @@ def standard_run(pid, tier, seed, replay, mc_runs, corpus_fn, nontrivial, rule_t
     if extra:
         extra(res, traces, verdicts, byid)
     return res
+
+
+# ----------------------------------------------------------------------------- role 3: behaviour-set equality
+def _canon_round(r, rule=None, idx=0):
+    c = _canon_round0(r)
+    if rule == "TopTwo" and idx == 1 and c["tiebreaks"]:
+        c["bag"] = "not observable"      # returned by a replay that re-draws the runoff tiebreak (see ElectionTrace.Match)
+    return c
+
+
+def _canon_round0(r):
+    return {"elected": [sorted(g) for g in r["elected"]], "eliminated": [sorted(g) for g in r["eliminated"]],
+            "remaining": [sorted(g) for g in r["remaining"]],
+            "scores": sorted([[c, list(v)] for c, v in r["scores"]]),
+            "tiebreaks": sorted([{"tied": sorted(t["tied"]), "order": [sorted(g) for g in t["order"]]} for t in r["tiebreaks"]], key=lambda t: t["tied"]),
+            "bag": sorted([{"r": [sorted(p) for p in b["r"]], "w": list(b["w"])} for b in r["bag"]], key=lambda b: json.dumps(b["r"]))}
+
+
+def behaviour_set_equality(res, pid, family, cands, max_ballots, max_w, with_half=False, name="role3"):
+    """spec [= code AND code [= spec on an exhaustively enumerated domain: TLC emits every terminal behaviour of the bounded model;
+    for every input the set of complete runs of the real code over all outcomes of its random draws must equal the emitted set."""
+    wd = os.path.join(OUT, pid, name)
+    os.makedirs(wd, exist_ok=True)
+    emit = os.path.join(wd, "behaviours.ndjson")
+    if os.path.exists(emit):
+        os.remove(emit)
+    r = model_check(res, pid, family, cands, max_ballots, max_w, with_half=with_half, invariants=["MTypeOK"], props=[], name=name, coverage=False, emit=emit)
+    from ..common import read_ndjson
+    spec = {}
+    for b in read_ndjson(emit):
+        cfg = dict(b["cfg"])
+        cfg["vec"] = [list(x) for x in cfg.get("vec", [])]
+        key = json.dumps({"cfg": cfg, "prof0": sorted([{"r": [sorted(p) for p in x["r"]], "w": list(x["w"])} for x in b["prof0"]], key=lambda x: json.dumps(x["r"]))}, sort_keys=True)
+        beh = json.dumps({"status": b["status"], "rounds": [_canon_round(x, cfg["rule"], i) for i, x in enumerate(b["rounds"][1:])]}, sort_keys=True)
+        spec.setdefault(key, set()).add(beh)
+    os.remove(emit)
+    inputs = []
+    for key in spec:
+        k = json.loads(key)
+        inputs.append({"cfg": k["cfg"], "cands": list(cands), "ballots": k["prof0"], "mode": "explore", "max_paths": 2000, "_key": key})
+    traces = record_corpus(inputs)
+    code = {}
+    complete = {}
+    for t in traces:
+        key = t["_inp"]["_key"]
+        complete[key] = complete.get(key, True) and t["_info"].get("explored", False)
+        evs = t["events"]
+        err = [e for e in evs if e["ev"] != "Round"]
+        status = "finished" if not err else (err[0].get("class") or err[0]["ev"])
+        beh = json.dumps({"status": status, "rounds": [_canon_round(e, t["cfg"]["rule"], i) for i, e in enumerate([e for e in evs if e["ev"] == "Round"])]}, sort_keys=True)
+        code.setdefault(key, set()).add(beh)
+    compared = skipped = skipped_err = 0
+    for key, sb in sorted(spec.items()):
+        if any(json.loads(b)["status"] == "overelected" for b in sb):
+            skipped += 1          # recorded finding KF_overelect / KF_thr0: the implementation has no behaviour to compare
+            continue
+        cb = code.get(key, set())
+        if not complete.get(key):
+            skipped += 1
+            continue
+        if any(json.loads(b)["status"] not in ("finished", "ValueError") for b in cb):
+            skipped_err += 1      # some run ends in another exception / non-termination: C01 speaks about that input (recorded findings)
+            continue
+        compared += 1
+        if cb != sb:
+            k = json.loads(key)
+            only_spec = sorted(sb - cb)[:1]
+            only_code = sorted(cb - sb)[:1]
+            kind = "CodeLacksSpecBehaviour" if only_spec and not only_code else ("CodeHasExtraBehaviour" if only_code and not only_spec else "BehaviourSetsDiffer")
+            res.violation("%s:%s:-" % (k["cfg"]["rule"], kind), "the set of complete runs of the code over all random outcomes (%d) differs from the set of "
+                          "terminal behaviours of the specification (%d) for this input" % (len(cb), len(sb)),
+                          {"input": {"cfg": k["cfg"], "cands": list(cands), "ballots": k["prof0"], "mode": "explore"},
+                           "only_in_spec": [json.loads(x) for x in only_spec], "only_in_code": [json.loads(x) for x in only_code]})
+    res.traces += len(traces)
+    res.notes["behaviour_set_equality"] = {"inputs": len(spec), "compared": compared, "skipped_known_or_incomplete": skipped, "skipped_runs_ending_in_other_exception": skipped_err,
+                                           "spec_behaviours": sum(len(v) for v in spec.values()), "code_runs": len(traces)}
+    return compared
